@@ -368,7 +368,8 @@ class PluginEnv:
                                                                   'importraises ' + tt(b[1]) if b[0] == 'import_raises' else 'text ' + tt(b[1]))
 
         def srcb(b):
-            return b[0] if b[0] in ('echo', 'raises') else 'text ' + tt(b[1])
+            # ('raises_import',): the CALL raises ImportError - for the model simply a parser that raises
+            return b[0] if b[0] in ('echo', 'raises') else 'raises' if b[0] == 'raises_import' else 'text ' + tt(b[1])
 
         def cob(b):
             # ('table_raise', procs, bad): raises for the procedure `bad`, which the model sees as "no description"
@@ -394,6 +395,7 @@ class PluginEnv:
     def install(self):
         """write fixture modules, hook them into the three plugin packages, reset the repo's module caches"""
         self.uninstall()
+        watch_shipped()     # (imports the three shipped parser modules once, before any import log is looked at)
         self.dir = tempfile.mkdtemp(prefix='pelfix_')
         import udparsers, srcparsers, calloutparsers  # noqa
         for pkg, mods in (('udparsers', self.ud), ('srcparsers', self.src), ('calloutparsers', {k + 'callouts': v for k, v in self.callout.items()})):
@@ -465,6 +467,8 @@ def fixture_source(pkg, beh):
             body = 'return json.dumps({"refcode": refcode, "words": [w2, w3, w4, w5, w6, w7, w8, w9]})'
         elif beh[0] == 'raises':
             body = 'raise Exception("src plugin failure")'
+        elif beh[0] == 'raises_import':
+            body = 'raise ImportError("No module named frobnicate (raised while the parser runs)")'
         else:
             body = 'return %r' % beh[1]
         return 'import json\ndef parseSRCToJson(refcode, w2, w3, w4, w5, w6, w7, w8, w9):\n    %s\n' % body
